@@ -7,7 +7,8 @@ CONSTANTS
   TwoArr = FALSE
   Record = FALSE
   MaxSteps = 0
-  WpMulti = 0
+  WpMulti = 1
+  RunSet = 1
   DoEmit = FALSE
   DoWp = TRUE
   DoRun = TRUE
